@@ -141,9 +141,25 @@ func observeJSON(doc string) []string {
 // D: custom driver. Every operator gets a tracing render function; mapspec "rm=<op>,<op>;ov=<op>,..." removes the
 // functions of some operators and replaces those of others by a differently spelled one.
 func observeCustom(q, spec string) []string {
-	e, err := lucene.Parse(q)
-	if err != nil || e == nil {
-		return []string{"NOPARSE", "-"}
+	var e *expr.Expression
+	if strings.HasPrefix(q, "J:") {
+		var d expr.Expression
+		ok := guard(func() string {
+			if json.Unmarshal([]byte(q[2:]), &d) != nil || expr.Validate(&d) != nil {
+				return "no"
+			}
+			return "yes"
+		})
+		if ok != "yes" {
+			return []string{"NOPARSE", "-"}
+		}
+		e = &d
+	} else {
+		var err error
+		e, err = lucene.Parse(q)
+		if err != nil || e == nil {
+			return []string{"NOPARSE", "-"}
+		}
 	}
 	rm, ov := parseSpec(spec)
 	trace := []string{}
